@@ -48,8 +48,7 @@ Proof.
     apply in_app_iff in Hz. destruct Hz as [Hz|Hz]; [apply HR, Hz|].
     apply filter_In in Hz. destruct Hz as [Hz Nz]. apply negb_true_iff, Nat.eqb_neq in Nz.
     apply in_flat_map in Hz. destruct Hz as [w [Hw Hzw]].
-    assert (T : forall p q, reach h a p q -> reach h a p z -> True) by auto.
-    clear T. specialize (HR w Hw). clear - HR Hzw Nz.
+    specialize (HR w Hw). clear - HR Hzw Nz.
     induction HR as [w|p q w Hq Nq _ IHr]; [apply (reach_step h a w z z Hzw Nz), reach_refl|].
     apply (reach_step h a p q z Hq Nq). apply IHr, Hzw. }
   apply G. intros y [<-|[]]. apply reach_refl.
